@@ -70,7 +70,7 @@ def check(acc, wire, w):
     try:
         got = o.ja3()
     except Exception as e:  # noqa
-        acc.violation('ja3:raises:%s' % type(e).__name__, 'ja3() raises %s' % type(e).__name__, w)
+        acc.violation('ja3:raises:%s' % core.ename(e), 'ja3() raises %s' % core.ename(e), w)
         return
     exp = ja3_ref(wire)
     acc.state(core.h64('ja3', exp))
